@@ -212,6 +212,20 @@ pub fn seam_shapes(report: &Report, tier: Tier, seed: u64) {
             }
         }
     }
+    // targeted client bases: B - k*g^x equal to -3..=3, -N-3..=-N+3, -2N-3..=-2N+3 with odd and even exponents
+    for (bp, x, a, u, what) in targeted_client_bases(seed) {
+        let want = srp::client_s(&U::from_le_bytes(&bp), &U::from_le_bytes(&x), &U::from_le_bytes(&a), &U::from_le_bytes(&u), 7, &n).to_le_padded::<32>();
+        match catch(|| verif_hooks::client_s(bp, x, a, u, 7, N_LE)) {
+            Ok(Some(got)) => {
+                if got != want {
+                    viol(report, "client-S-targeted-base", json!({"B": hex(&bp), "x": hex(&x), "a": hex(&a), "u": hex(&u), "what": what}), format!("client S = {} but (B - k*g^x)^(a+u*x) mod N = {} ({what})", hex(&got), hex(&want)));
+                }
+            }
+            Ok(None) => {}
+            Err(m) => viol(report, "client-S-panic", json!({"B": hex(&bp), "x": hex(&x), "what": what}), format!("calculate_client_S panicked: {m}")),
+        }
+        boundary += 1;
+    }
     cases.fetch_add(boundary, Ordering::Relaxed);
     report.count("seam_boundary_operand_cases", boundary);
     report.count("seam_cases", cases.load(Ordering::Relaxed));
